@@ -11,6 +11,8 @@
 import Fir.Model.Filters
 import Fir.Model.ProtoGeom
 import Fir.Generated.Constify
+import Fir.Model.RatOfFloat
+import Fir.Spec.IdealFilter
 namespace Fir
 
 def parseIntList (s : String) : List Int := if s.isEmpty then [] else (s.splitOn ",").filterMap String.toInt?
@@ -22,6 +24,84 @@ def quantOKb (ks : Array Int) (p : Nat) (m : Int) : Bool :=
   let d := ks.foldl (· + ·) 0 - 2 ^ p
   let a := if d < 0 then -d else d
   m * a < 2 ^ (p - 1)
+
+
+def qabsR (x : Rat) : Rat := if x < 0 then -x else x
+
+/-- exact value of the implementation's weight `j` of window `o` as `m / 2^e` -/
+def implWeight (ws : Nat) (vals : Array Nat) (o j : Nat) : Option (Int × Nat) :=
+  dyadicOfF64 (Float.ofBits (UInt64.ofNat (vals.getD (o * ws + j) 0)))
+
+def iabs (x : Int) : Int := if x < 0 then -x else x
+
+/-- hypothesis `hq` of `C01.pass_err` / `C10.quantOK_of_rounded_weights`, discharged on the implementation's own numbers:
+    every integer coefficient is within 1/2 of (its f64 weight, taken as an exact rational) · 2^p,
+    i.e. `2·|k·2^e − m·2^p| ≤ 2^e` for the weight `m / 2^e` -/
+def hqCheck (ws : Nat) (bounds : Array (Nat × Nat)) (vals : Array Nat) (p : Nat) (q : Array (Array Int)) : Option String := Id.run do
+  if bounds.foldl (fun a b => a + b.2) 0 > 3000 then return none
+  for o in [0:q.size] do
+    let ks := q[o]!
+    for j in [0:ks.size] do
+      match implWeight ws vals o j with
+      | none => return some s!"weight ({o},{j}) is not finite"
+      | some (m, e) =>
+        if 2 * iabs (ks[j]! * ((2 ^ e : Nat) : Int) - m * ((2 ^ p : Nat) : Int)) > ((2 ^ e : Nat) : Int) then
+          return some s!"coefficient ({o},{j}) = {ks[j]!} is not a rounding of its weight at precision {p}"
+  return none
+
+/-- the implementation's f64 weights against the ideal weights of `Fir.Spec.idealWeights` (exact rationals) for the
+    polynomial kernels: every tap within 1e-9, taps outside the common window below 1e-9, and the weights of every
+    window sum to 1 within 1e-9.  Box windows with a tap within 1e-9 of the kernel's discontinuity are skipped.
+    Returns (failure, number of windows compared). -/
+def idealCheck (inSize : Nat) (in0 in1 : Float) (outSize : Nat) (fname : String) (adaptive : Bool) (ws : Nat)
+    (bounds : Array (Nat × Nat)) (vals : Array Nat) : Option String × Nat := Id.run do
+  match Spec.qFilterOfName fname, ratOfF64 in0, ratOfF64 in1 with
+  | some qf, some r0, some r1 =>
+    let total := bounds.foldl (fun a b => a + b.2) 0
+    if total > 3000 ∨ outSize = 0 ∨ r1 ≤ r0 then return (none, 0)
+    let tol : Rat := 1 / 1000000000
+    let mut compared := 0
+    for o in [0:bounds.size] do
+      let (start, size) := bounds[o]!
+      let (xmin, n, c, fscale) := Spec.idealGeom inSize r0 r1 outSize qf.support adaptive o
+      if fname == "box" then
+        -- discontinuous kernel: float noise decides taps that sit on the edge of the box
+        let edge := (List.range (n + 2)).any fun i =>
+          let a := ((((xmin + i : Nat) : Rat) - 1) - c) / fscale
+          qabsR (qabsR a - 1 / 2) < tol
+        if edge then continue
+      let (s, iw) := Spec.idealWeights inSize r0 r1 outSize qf adaptive o
+      let iwa := iw.toArray
+      let lo := min s start
+      let hi := max (s + iwa.size) (start + size)
+      for i in [lo:hi] do
+        let (am, ae) : Int × Nat := if start ≤ i ∧ i < start + size then (implWeight ws vals o (i - start)).getD (0, 0) else (0, 0)
+        let b : Rat := if s ≤ i ∧ i < s + iwa.size then iwa[i - s]! else 0
+        -- |am/2^ae − num/den| ≤ 1e-9  ⟺  |am·den − num·2^ae|·10^9 ≤ den·2^ae
+        let pw : Int := ((2 ^ ae : Nat) : Int)
+        if iabs (am * (b.den : Int) - b.num * pw) * 1000000000 > (b.den : Int) * pw then
+          return (some s!"window {o}, source index {i}: weight {Float.ofBits (UInt64.ofNat (vals.getD (o * ws + (i - start)) 0))} differs from the ideal weight {b}", compared)
+      compared := compared + 1
+    return (none, compared)
+  | _, _, _ => return (none, 0)
+
+/-- partition of unity on the implementation's own f64 weights (exact rational sum), every built-in filter:
+    the weights of each window sum to 1 within 1e-9 -/
+def sumCheck (fname : String) (ws : Nat) (bounds : Array (Nat × Nat)) (vals : Array Nat) : Option String := Id.run do
+  if fname.startsWith "custom" then return none
+  if bounds.foldl (fun a b => a + b.2) 0 > 3000 then return none
+  for o in [0:bounds.size] do
+    let (_, size) := bounds[o]!
+    -- common exponent 1100 (weights are far from the subnormal range; smaller exponents are scaled up exactly)
+    let mut sum : Int := 0
+    let mut exact := true
+    for j in [0:size] do
+      match implWeight ws vals o j with
+      | some (m, e) => if e ≤ 1100 then sum := sum + m * ((2 ^ (1100 - e) : Nat) : Int) else if m ≠ 0 then exact := false
+      | none => exact := false
+    let one : Int := ((2 ^ 1100 : Nat) : Int)
+    if size > 0 ∧ (¬ exact ∨ iabs (sum - one) * 1000000000 > one) then return some s!"window {o}: the f64 weights do not sum to 1 within 1e-9"
+  return none
 
 def handleCoeffs (fs : List (String × String)) : String :=
   match getNat fs "in", (getField fs "in0").bind f64OfHex, (getField fs "in1").bind f64OfHex, getNat fs "out",
@@ -53,7 +133,11 @@ def handleCoeffs (fs : List (String × String)) : String :=
             else if g16 ≠ q16.chunks.map (·.2) then some "quantised i16 coefficients differ"
             else if p32 ≠ q32.precision then some s!"precision32 model={q32.precision} got={p32}"
             else if g32 ≠ q32.chunks.map (·.2) then some "quantised i32 coefficients differ"
-            else none
+            else match hqCheck ws gotBounds gotVals p16 g16 with
+              | some e => some ("hypothesis hq (16-bit coefficients): " ++ e)
+              | none => match hqCheck ws gotBounds gotVals p32 g32 with
+                | some e => some ("hypothesis hq (32-bit coefficients): " ++ e)
+                | none => none
       -- facts the theorems take as hypotheses, judged on the implementation's own numbers
       let nonnegFilter := fname == "box" || fname == "bilinear" || fname == "hamming" || fname == "gaussian"
       let s : Option String := Id.run do
@@ -72,9 +156,11 @@ def handleCoeffs (fs : List (String × String)) : String :=
         for ks in g32 do
           if ¬ quantOKb ks p32 65535 then return some s!"QuantOK fails for an i32 window: sum {ks.foldl (· + ·) 0} at precision {p32}"
           if nonnegFilter ∧ ks.any (· < 0) then return some "negative i32 coefficient for a non-negative filter"
-        return none
+        match (idealCheck inSize in0 in1 outSize fname (adaptive == 1) ws gotBounds gotVals).1 with
+        | some e => return some e
+        | none => return sumCheck fname ws gotBounds gotVals
       match m, s with
-      | none, none => "OK"
+      | none, none => s!"OK ideal-windows={(idealCheck inSize in0 in1 outSize fname (adaptive == 1) ws gotBounds gotVals).2}"
       | some m, none => "MODEL-DIFF " ++ m
       | none, some s => "SPEC-FAIL " ++ s
       | some m, some s => "MODEL-DIFF " ++ m ++ " ; SPEC-FAIL " ++ s
